@@ -781,8 +781,11 @@ class Pickled(OpcodeSequence):
     @property
     def properties(self) -> ASTProperties:
         if self._properties is None:
-            self._properties = ASTProperties()
-            self._properties.visit(self.ast)
+            # only cache the properties once the AST could actually be built and visited;
+            # otherwise a failed first attempt would leave an empty summary behind
+            properties = ASTProperties()
+            properties.visit(self.ast)
+            self._properties = properties
         return self._properties
 
     @property
